@@ -40,6 +40,25 @@ EdifReadClauses(pre, c, out, post, ret) ==
          <<"C05_WF", out = "ok" => C05_WF(pre, c, post, ret)>> >>
     ELSE <<>>
 
+(* a bundled example file: the independent reader's canon of the text against the real reader's netlist *)
+NoPortBase(cn) ==    \* EDIF port arrays carry no base index: it is not compared for files from outside
+    [cn EXCEPT !.libs = {[l EXCEPT !.cells = {[cc EXCEPT !.ports = [j \in DOMAIN cc.ports |-> [cc.ports[j] EXCEPT !.lower = 0]]]
+                                              : cc \in l.cells}] : l \in cn.libs}]
+EdifFileClauses(c, out, post, ret, r) ==
+    IF c.op = "edif_file_read" THEN
+      << <<"C05_Accepted", out = "ok" /\ Len(ret) = 1>>,
+         <<"C05_Exact", (out = "ok" /\ Len(ret) = 1 /\ r.file_readable) => NoPortBase(FileCanon(r.filecanon)) = NoPortBase(Canon(post, ret[1], TRUE))>>,
+         <<"C05_WF", (out = "ok" /\ Len(ret) = 1) => (WF(post) /\ SelfContained(post, ret[1]))>> >>
+    ELSE <<>>
+
+(* a bundled .v / .eblif example: accepted, well-formed, self-contained (no independent reader of these formats) *)
+FileReadClauses(c, out, post, ret) ==
+    IF c.op = "file_read" THEN
+      LET id == IF c.fmt = "vlog" THEN "C06" ELSE "C18" IN
+      << <<id \o "_Accepted", out = "ok" /\ Len(ret) = 1>>,
+         <<id \o "_WF", (out = "ok" /\ Len(ret) = 1) => (WF(post) /\ SelfContained(post, ret[1]))>> >>
+    ELSE <<>>
+
 C03_ReaderAccepts(c, out, r) == c.op = "edif_rt" => (out = "ok" /\ r.reader_accepts)
 C03_RoundTrip(pre, c, post, ret) ==
     (c.op = "edif_rt" /\ Len(ret) = 1) => Canon(post, ret[1], TRUE) = Canon(pre, c.n, TRUE)
@@ -67,7 +86,7 @@ VAttrOf(d, isInst) ==
     ELSE LET a == IF d.k = NoVal THEN "" ELSE "attr:A=" \o d.k
              p == IF ~isInst \/ d.props = NoVal THEN "" ELSE "param:P=" \o d.props
          IN IF a # "" /\ p # "" THEN a \o ";" \o p ELSE a \o p
-VInst(s, i) == [name |-> StripEsc(s.instData[i].name), ref |-> NameOfD(s, s.instRef[i]), attr |-> VAttrOf(s.instData[i], TRUE)]
+VInst(s, i) == [name |-> StripEsc(s.instData[i].name), ref |-> StripEsc(NameOfD(s, s.instRef[i])), attr |-> VAttrOf(s.instData[i], TRUE)]
 IsConstCable(s, c) == s.cabData[c].name \in {"\\<const0>", "\\<const1>"}
 (* the domain of C06: a single root module, port directions declared *)
 DomC06(s, n) ==
@@ -80,13 +99,13 @@ DomC06(s, n) ==
 VCables(s, d) ==      \* a constant net exists in a module only when something is tied to it
     {c \in SeqSet(s.defCables[d]) : ~IsConstCable(s, c) \/ \E w \in SeqSet(s.cabWires[c]) : s.wirePins[w] # <<>>}
 VCell(s, d) ==
-    [name |-> s.defData[d].name,
+    [name |-> StripEsc(s.defData[d].name),
      ports |-> [j \in DOMAIN s.defPorts[d] |-> PortCanon(s, s.defPorts[d][j])],
      insts |-> {VInst(s, i) : i \in {ii \in SeqSet(s.defKids[d]) : s.instRef[ii] = None \/ ~IsAssignDef(s, s.instRef[ii])}},
      nattr |-> {<<StripEsc(s.cabData[c].name), VAttrOf(s.cabData[c], FALSE)>> : c \in VCables(s, d)},
      nets  |-> {[NetCanon(s, c, FALSE) EXCEPT !.name = StripEsc(@),
                     !.bits = [k \in DOMAIN @ |-> {[e EXCEPT !.inst = StripEsc(@)] : e \in @[k]}]] : c \in VCables(s, d)}]
-VCanon(s, n) == [top |-> TopCanon(s, n).cell, cells |-> {VCell(s, d) : d \in VDefs(s, n)}]
+VCanon(s, n) == [top |-> StripEsc(TopCanon(s, n).cell), cells |-> {VCell(s, d) : d \in VDefs(s, n)}]
 
 VlogReadClauses(pre, c, out, post, ret) ==
     IF c.op = "vlog_read" /\ DomC06(pre, c.n) THEN
